@@ -59,6 +59,13 @@ def mha(params, xq, xk, xv, mask=None, bias=None):
       y = y + f64(params[name]['bias'])
     return y
   q, k, v = proj('query', xq), proj('key', xk), proj('value', xv)
+  def ln(name, y):
+    # QK normalisation (normalize_qk=True): LayerNorm over the head dimension, scale only, epsilon 1e-6
+    mu = y.mean(-1, keepdims=True)
+    var = ((y - mu) ** 2).mean(-1, keepdims=True)
+    return (y - mu) / np.sqrt(var + 1e-6) * f64(params[name]['scale'])
+  if 'query_ln' in params:
+    q, k = ln('query_ln', q), ln('key_ln', k)
   w, row_ok = attention_weights(q, k, bias, mask)
   o = np.einsum('...hqk,...khd->...qhd', np.nan_to_num(w), v)
   out = np.einsum('...hd,hdf->...f', o, f64(params['out']['kernel']))
